@@ -76,7 +76,7 @@ def generate(rng, tier):
     ext_pool = [-math.inf, -1.7976931348623157e308, -1e308, -1.0, -5e-324, 0.0, 5e-324, 1.0, 1e308, 1.7976931348623157e308, math.inf]
     for n in range(2, 6):
         for word in itertools.product("<=>", repeat=n - 1):
-            for _ in range(2 if tier == "quick" else 12):
+            for _ in range(gen.N(tier, 2, 12)):
                 i = rng.randrange(len(ext_pool))
                 vals = [ext_pool[i]]
                 ok = True
@@ -101,7 +101,7 @@ def generate(rng, tier):
                     v = [base + (x - base) * rng.choice([1, 2, 100, 255]) for x in v]
                 cases.append({"line": "I mono " + t_vec(v, gen.fi, rng.choice(gen.LAYS_1D)), "meta": {"v": v}})
     # random long vectors
-    for _ in range(60 if tier == "quick" else 600):
+    for _ in range(gen.N(tier, 60, 600)):
         n = rng.randint(10, 400)
         kind = rng.choice(["rise", "fall", "flat", "mixed"])
         v = [0]
